@@ -41,6 +41,7 @@ extern "C" char __executable_start, _end;
 namespace rt {
 
 Globals G;
+int g_vc_n = 1;
 __thread Thread* self = nullptr;
 
 void* real_sym(const char* name) {
@@ -166,7 +167,7 @@ void core_reset_run() {
     t.watch_deadline = -1; t.watch_pts = 0; t.block_start = 0; t.blocked_ns = 0;
     t.sb.clear(); t.vc.clear(); t.fence_rel.clear(); t.has_fence_rel = false; t.pend_acq.clear(); t.has_pend_acq = false;
   }
-  G.nth = 0; G.cur = nullptr;
+  G.nth = 0; G.cur = nullptr; g_vc_n = 1;
   G.steps = G.switches = G.switches_in_op = 0;
   G.hash = G.ihash = 1469598103934665603ULL;
   G.sb_nonempty = 0; G.idle_jumps = 0;
